@@ -160,6 +160,11 @@ func zzH_C05_remove_beyond_cache(t *zzT) {
 		t.Assert(tip.Header.Height == want.Header.Height && bytes.Equal(tip.Header.ID, want.Header.ID) && len(tip.Transactions) == len(want.Transactions), "the tip after a removal is the complete block below the removed one")
 		_, gone := chain.DataAccess().GetBlockHeaderByHeight(blocks[n-k].Header.Height)
 		t.Assert(gone != nil, "a removed height is no longer served")
+		// ... nor is the removed block served by ID (header, block, bulk lookup): the cache must not keep it
+		_, e1 := chain.DataAccess().GetBlockHeader(blocks[n-k].Header.ID)
+		_, e2 := chain.DataAccess().GetBlock(blocks[n-k].Header.ID)
+		hs, e3 := chain.DataAccess().GetBlockHeaders([][]byte{blocks[n-k].Header.ID})
+		t.Assert(e1 != nil && e2 != nil && (e3 != nil || len(hs) == 0), "a removed block is no longer served by ID")
 	}
 	// a sibling on the new tip
 	tip := chain.LastBlock()
